@@ -387,10 +387,11 @@ def wire_rules(ctx, R, verbs=True):
         if isinstance(a, ast.Constant) and a.value is None:
             a = None  # the default, passed explicitly
         if a is not None:
-            if not isinstance(a, ast.List):
+            elts = a.elts if isinstance(a, ast.List) else (_list_elements(f, a) if isinstance(a, ast.Name) else None)
+            if elts is None:
                 ctx.violation("W5", f, "args-not-list:%s" % verb, "arguments of %s are not a literal list" % verb, node=c)
             else:
-                for el in a.elts:
+                for el in elts:
                     k = arg_kind(ctx, R, f, el)
                     if k is None and isinstance(el, ast.Constant) and el.value is None and ctx.extra.get("formatter_skips_none"):
                         k = "absent optional argument (the formatter leaves None out)"
@@ -1135,6 +1136,58 @@ def text_to_bytes_helper(ctx, R, g):
             return False
     cache[g.qualname] = True
     return True
+
+
+def _list_elements(f, name, depth=0):
+    """The expressions that can be elements of the local list `name` (built from list literals, copies of such lists, `.append(x)`,
+    `+= [x]`, `.extend([x])`); None when one of its definitions is something else."""
+    if depth > 4:
+        return None
+    out = []
+    seen_def = False
+    for st in walk_no_nested(f.node):
+        if isinstance(st, (ast.Assign, ast.AnnAssign)) and st.value is not None and any(
+                isinstance(t, ast.Name) and t.id == name.id for t in (st.targets if isinstance(st, ast.Assign) else [st.target])):
+            seen_def = True
+            vals = [st.value]
+            while vals:
+                v = vals.pop()
+                if isinstance(v, ast.IfExp):
+                    vals += [v.body, v.orelse]
+                elif isinstance(v, ast.List):
+                    out += list(v.elts)
+                elif isinstance(v, ast.Constant) and v.value is None:
+                    pass
+                elif isinstance(v, ast.Call) and isinstance(v.func, ast.Name) and v.func.id == "list" and len(v.args) <= 1:
+                    if v.args:
+                        vals.append(v.args[0])
+                elif isinstance(v, ast.Name) and v.id == name.id:
+                    pass  # a copy of the list itself: its elements come from the other definitions
+                elif isinstance(v, ast.Name):
+                    sub_ = _list_elements(f, v, depth + 1)
+                    if sub_ is None:
+                        return None
+                    out += sub_
+                elif isinstance(v, ast.BinOp) and isinstance(v.op, ast.Add):
+                    vals += [v.left, v.right]
+                elif isinstance(v, ast.BoolOp) and isinstance(v.op, ast.Or):
+                    vals += list(v.values)
+                else:
+                    return None
+        elif isinstance(st, ast.Expr) and isinstance(st.value, ast.Call) and isinstance(st.value.func, ast.Attribute) \
+                and isinstance(st.value.func.value, ast.Name) and st.value.func.value.id == name.id:
+            if st.value.func.attr == "append" and len(st.value.args) == 1:
+                out.append(st.value.args[0])
+            elif st.value.func.attr == "extend" and len(st.value.args) == 1 and isinstance(st.value.args[0], ast.List):
+                out += list(st.value.args[0].elts)
+            else:
+                return None
+        elif isinstance(st, ast.AugAssign) and isinstance(st.target, ast.Name) and st.target.id == name.id:
+            if isinstance(st.op, ast.Add) and isinstance(st.value, ast.List):
+                out += list(st.value.elts)
+            else:
+                return None
+    return out if seen_def else None
 
 
 def arg_kind(ctx, R, f, el):
